@@ -7,10 +7,7 @@ open Wire Chain Flow
 
 structure St where
   cfg : Flow.Cfg := { p := { chainId := "vchain", initialHeight := 1, genesisTime := 0, proposerAddr := [], key := 1, signerAddr := [] }, qc := {} }
-  n : Flow.Node := {}
-  before : Flow.Disk := {}
-  ws : List FW := []
-  mempool : List Bytes := []
+  r : Flow.RunSt := {}
   ok : Bool := false
   deriving Inhabited
 
@@ -33,6 +30,7 @@ def observe (before : Nat) (n : Flow.Node) (ws : List FW) : String :=
   let nb := if newBlocks.isEmpty then "-" else String.intercalate ";" newBlocks
   s!"height={h} new={nb} pend={blockTxs n.prod.store (h + 1)} qd={n.q.disk.length} seen={n.seen.length} w={showWs ws}"
 
+/-- every operation of the node is executed by `Flow.opStep` (the definition the theorems of `Spec/C11` are about) -/
 def step (s : St) (line : String) : St × String :=
   let o := parseOp line
   if o.verb ≠ "reset" && !s.ok then (s, "dead") else
@@ -41,27 +39,27 @@ def step (s : St) (line : String) : St × String :=
     let pa := o.bytes "pa"
     let cfg : Flow.Cfg := { p := { chainId := "vchain", initialHeight := 1, genesisTime := o.nat "gt", proposerAddr := pa, key := 1, signerAddr := pa },
                             qc := { id := Bytes.ofString "vchain", max := o.nat "qmax" } }
-    match Producer.start cfg.p {} with
-    | .error _ => ({ cfg := cfg }, "start err")
-    | .ok (p, _) =>
-      let n : Flow.Node := { prod := p }
-      ({ cfg := cfg, n := n, before := diskOf n, ok := true }, "start " ++ observe p.store.height n [])
-  | "mempool" => ({ s with mempool := o.list "txs" }, "ok")
+    match Flow.initSt cfg with
+    | none => ({ cfg := cfg }, "start err")
+    | some r => ({ cfg := cfg, r := r, ok := true }, "start " ++ observe r.n.prod.store.height r.n [])
+  | "mempool" =>
+    match Flow.opStep s.cfg s.r (.mempool (o.list "txs")) with
+    | some r => ({ s with r := r }, "ok")
+    | none => ({ s with ok := false }, "start err")
   | "drain" => (s, "ok")
   | "reap" =>
-    let before := diskOf s.n
-    let (n', ws) := reap s.cfg s.n s.mempool
-    ({ s with n := n', before := before, ws := ws }, "reap " ++ observe s.n.prod.store.height n' ws)
-  | "produce" =>
-    let before := diskOf s.n
-    let (n', ws, out) := produce s.cfg s.n
-    ({ s with n := n', before := before, ws := ws }, s!"produce out={Drv.Prod.outClass out} " ++ observe s.n.prod.store.height n' ws)
-  | "restart" | "crash" =>
-    let keep := if o.verb = "crash" then o.nat "keep" else s.ws.length
-    let d := (s.ws.take keep).foldl Flow.Disk.apply s.before
-    match restart s.cfg s.n d with
+    match Flow.opStep s.cfg s.r .reap with
+    | some r => ({ s with r := r }, "reap " ++ observe s.r.n.prod.store.height r.n r.ws)
     | none => ({ s with ok := false }, "start err")
-    | some n' => ({ s with n := n', before := d, ws := [] }, "start " ++ observe n'.prod.store.height n' [])
+  | "produce" =>
+    match Flow.opStep s.cfg s.r .produce with
+    | some r => ({ s with r := r }, s!"produce out={Drv.Prod.outClass (produce s.cfg s.r.n).2.2} " ++ observe s.r.n.prod.store.height r.n r.ws)
+    | none => ({ s with ok := false }, "start err")
+  | "restart" | "crash" =>
+    let op : Flow.Op := if o.verb = "crash" then .crash (o.nat "keep") else .restart
+    match Flow.opStep s.cfg s.r op with
+    | none => ({ s with ok := false }, "start err")
+    | some r => ({ s with r := r }, "start " ++ observe r.n.prod.store.height r.n [])
   | _ => (s, "bad-op")
 
 end Drv.Flw
